@@ -86,7 +86,7 @@ impl S {
     }
 }
 
-const VALUES: [f64; 11] = [-100.0, -20.0, -1.0, 0.0, 0.005, 0.01, 5.0, 20.0, 100.0, 1000.0, f64::INFINITY];
+const VALUES: [f64; 14] = [-100.0, -20.0, -1.0, 0.0, 0.005, 0.01, 5.0, 20.0, 100.0, 1000.0, f64::INFINITY, 1.234, 0.875, 33.333];
 
 fn menu(kind: u8, rich: bool) -> Vec<S> {
     let fvals: &[f32] = if rich { &[-100.0, 0.0, 7.5, 1000.0] } else { &[-100.0, 7.5] };
@@ -245,7 +245,7 @@ fn check_seq(l: &mut Local<'_>, mode: u8, map: &Beatmap, attrs: &DifficultyAttri
 
 fn main() {
     let ctx = Ctx::from_env("C18");
-    ctx.rule("universe 'sequences': per mode, every ordered sequence of <= 3 distinct setter kinds out of {mods, passed_objects, clock_rate, ar, cs, hp, od, hardrock_offsets, lazer} with every value combination from the per-setter menus (out-of-range values included), on a map source and an attributes source; oracle = Performance through own setters == Performance.difficulty(Difficulty with the same setters) as builders (when the mode's Performance records all of them) and as results always; independent setters commute; inspect round trip; inspected clock rate in [0.01,100], overrides in [-20,20]; setters documented irrelevant for the mode leave difficulty, strains and performance untouched. universe 'clamps': every setter x all 11 values {-100,-20,-1,0,0.005,0.01,5,20,100,1000,+inf}; non-trivial = pp > 0");
+    ctx.rule("universe 'sequences': per mode, every ordered sequence of <= 3 distinct setter kinds out of {mods, passed_objects, clock_rate, ar, cs, hp, od, hardrock_offsets, lazer} with every value combination from the per-setter menus (out-of-range values included), on a map source and an attributes source; oracle = Performance through own setters == Performance.difficulty(Difficulty with the same setters) as builders (when the mode's Performance records all of them) and as results always; independent setters commute; inspect round trip; inspected clock rate in [0.01,100], overrides in [-20,20]; setters documented irrelevant for the mode leave difficulty, strains and performance untouched. universe 'clamps': every setter x all 14 values {-100,-20,-1,0,0.005,0.01,5,20,100,1000,+inf,1.234,0.875,33.333}; the exact value survives (inspected == clamp(v)), and the same value written into the public field of the inspectable form and converted back gives the same Difficulty as the setter; non-trivial = pp > 0");
 
     let rich = !ctx.quick();
     let maps: Vec<(u8, MapSpec, Beatmap, DifficultyAttributes)> = maps()
@@ -317,7 +317,39 @@ fn main() {
             _ => S::Od(v as f32, w),
         };
         let (mode, spec, map, attrs) = &maps[idx as usize % maps.len()];
-        check_seq(l, *mode, map, attrs, &[s], spec);
+        if !check_seq(l, *mode, map, attrs, &[s.clone()], spec) {
+            return;
+        }
+        // the value itself survives, clamped to the documented bounds and not otherwise altered
+        let d = s.on_difficulty(Difficulty::new(), *mode);
+        let insp = d.clone().inspect();
+        let (got, want) = match k {
+            0 => (insp.clock_rate, v.clamp(0.01, 100.0)),
+            1 => (insp.ar.as_ref().map(|m| f64::from(m.value)), f64::from((v as f32).clamp(-20.0, 20.0))),
+            2 => (insp.cs.as_ref().map(|m| f64::from(m.value)), f64::from((v as f32).clamp(-20.0, 20.0))),
+            3 => (insp.hp.as_ref().map(|m| f64::from(m.value)), f64::from((v as f32).clamp(-20.0, 20.0))),
+            _ => (insp.od.as_ref().map(|m| f64::from(m.value)), f64::from((v as f32).clamp(-20.0, 20.0))),
+        };
+        l.checked(2);
+        if got != Some(want) {
+            l.violation("value_altered", || format!("setter {s:?}: the Difficulty holds {got:?}, expected the clamped value {want}"));
+            return;
+        }
+        // the same value written into the public field of the inspectable form
+        let mut raw = Difficulty::new().inspect();
+        let md = |v: f64| rosu_pp::any::ModsDependent { value: v as f32, with_mods: w };
+        match k {
+            0 => raw.clock_rate = Some(v),
+            1 => raw.ar = Some(md(v)),
+            2 => raw.cs = Some(md(v)),
+            3 => raw.hp = Some(md(v)),
+            _ => raw.od = Some(md(v)),
+        }
+        let via_fields = raw.clone().into_difficulty();
+        let via_from = Difficulty::from(raw);
+        if format!("{via_fields:?}") != format!("{d:?}") || format!("{via_from:?}") != format!("{d:?}") {
+            l.violation("inspect_fields", || format!("setter {s:?}\n through the setter              : {d:?}\n through InspectDifficulty fields: {via_fields:?}\n through From<InspectDifficulty> : {via_from:?}"));
+        }
     });
     let _ = GameMods::default();
     ctx.finish();
